@@ -10,8 +10,12 @@ PROP = {
         {"target": "c04_signals_plain", "sub": "signals",
          "quick": {"cases": 1500, "max_size": 60, "workers": 6, "case_alarm": 60},
          "thorough": {"cases": 30000, "max_size": 100, "workers": 8, "case_alarm": 60}},
+        {"target": "c04_signals_asan", "sub": "many_loops",
+         "quick": {"cases": 1500, "max_size": 40, "workers": 2, "case_alarm": 60},
+         "thorough": {"cases": 30000, "max_size": 80, "workers": 4, "case_alarm": 60}},
     ],
-    "assumptions": ["signals are raised one at a time with kill(getpid(), S) and only while no subscription change is in progress (the statement's domain); callbacks do not change other subscriptions",
+    "assumptions": ["signals are raised one at a time with kill(getpid(), S) and only while no subscription change is in progress (the statement's domain); callbacks may enable/disable their own event or disable one sibling event of the same loop (whose callback for that very delivery is then left free: the order in which a loop serves the subscribers of one signal is unspecified)",
+                    "sub many_loops: 1-48 loops owned by one thread, signals raised with raise() (thread-directed), every loop then gets two non-blocking passes",
                     "subscription changes are issued on the owning loop's thread",
                     "a signal whose original disposition is SIG_DFL is raised only while it has a subscriber",
                     "each worker is a separate process and owns its process-wide signal dispositions; one scenario at a time per process",
@@ -19,7 +23,7 @@ PROP = {
 }
 META = {
     "design_ref": "DESIGN.md section 4, C04",
-    "technique": "model-based stateful PBT (rapidcheck) with real signals and 1-3 loops on their own threads; model = signal -> enabled subscribers per loop; per-delivery exact callback counts, thread affinity, chained previous handler (sentinel), sigaction() compared with the saved original whenever a signal loses its last subscriber; ASan and plain builds; epoll and select",
+    "technique": "model-based stateful PBT (rapidcheck) with real signals and 1-3 loops on their own threads (plus sub many_loops: up to 48 loops with one subscriber each); model = signal -> enabled subscribers per loop; per-delivery exact callback counts, thread affinity, chained previous handler (sentinel), sigaction() compared with the saved original whenever a signal loses its last subscriber; ASan and plain builds; epoll and select",
     "level_text": "Generated histories of new/enable/disable/destroy on signal events (6 signals, several events per signal, persistent and one-shot, 1-3 loops each on its own thread) interleaved with deliveries raised one at a time; before each history every signal gets a generated original disposition (SIG_DFL, SIG_IGN, sa_handler sentinel, SA_SIGINFO sentinel, sentinel with sa_mask and SA_RESTART). After every delivery each modelled subscriber has exactly one more callback for that signal on its loop's thread, nobody else has any, the sentinel ran exactly once; whenever a signal's subscriber count drops to zero the kernel-reported disposition equals the original in handler, flags and mask. Exploration only.",
     "level_note": "Trusted: the subscriber model, kill()/sigaction() semantics of Linux, the two-round-trip barrier per loop after each delivery (plus a 3 s settle bound for missing callbacks).",
 }
